@@ -98,6 +98,7 @@ ContCfgsOf(n, opts) == { c \in { [impl |-> "cont", kinds |-> t, linkm |-> o[1], 
                                    : t \in TablesUpTo(n), o \in opts }
                            : Len(Effective(c)) > 0 }
 ContOptsAll  == {"def", "cus"} \X {"def", "cus"} \X BOOLEAN
+ContOptsTwo  == { <<"def", "def", FALSE>>, <<"cus", "cus", TRUE>> }
 ContOptsMain == { <<"def", "def", TRUE>>, <<"def", "def", FALSE>>, <<"cus", "cus", TRUE>>, <<"cus", "cus", FALSE>> }
 
 \* builder flag sets (pkg/mount/builder_linux.go)
